@@ -231,6 +231,37 @@ Proof.
   - eexists. reflexivity.
 Qed.
 
+(* (9) "active" in the model IS the election: the status EndBlock writes for a queue entry is exactly
+   its election result (enough power, a free slot among TopValidatorCount when its turn comes, not
+   frozen); at most TopValidatorCount stakers are counted active; a staker whose turn comes when all
+   slots are taken is recorded inactive — so by (6) it can neither open nor vote *)
+Theorem C19_status_is_election_result : forall c mal h vs cnt q,
+  let upd := (minPower c <=? q.2) && (cnt <? topN c) && negb (inb q.1 mal) in
+  active_in (elect_one c mal h (vs, cnt) q).1 q.1 = upd /\
+  (elect_one c mal h (vs, cnt) q).2 = (if upd then cnt + 1 else cnt) /\
+  (forall b, b <> q.1 -> (elect_one c mal h (vs, cnt) q).1 !! b = vs !! b).
+Proof. exact elect_one_status. Qed.
+Theorem C19_active_count_le_top : forall c s q, 0 <= topN c -> 0 <= (elect c s q).2 <= topN c.
+Proof. exact active_count_le_top. Qed.
+Theorem C19_standby_inactive : forall c mal h vs cnt q,
+  topN c <= cnt -> active_in (elect_one c mal h (vs, cnt) q).1 q.1 = false.
+Proof. exact standby_inactive. Qed.
+Print Assumptions C19_active_count_le_top.
+
+Definition cfg_top2 : Cfg := mkCfg 100 100 50 100 30 100 50 100 1 4 1000 2.
+Definition q5 : list (Z * Z) := [(1, 3000000); (2, 2999000); (3, 2998000); (4, 2997000); (5, 2996000)].
+(* five qualified stakers, two slots: only 1 and 2 are active; the standby stakers 3, 4, 5 are refused
+   when they accuse and vote, so validator 2 cannot be convicted by them; the request opened by 1
+   stays open with no votes *)
+Example C19_standby_stakers_are_refused :
+  let r := run cfg_top2 (init_with q5)
+    [OBegin 2 30 []; OEnd q5 []; OBegin 3 45 []; OAllege 0 3 2 3; OAllege 1 1 2 3;
+     OVote 1 3 YES; OVote 1 4 YES; OVote 1 5 YES; OEnd q5 []] in
+  map (is_active r.1) [1; 2; 3; 4; 5] = [true; true; false; false; false] /\
+  r.2 = [EvTx false; EvTx true; EvOpened 1 1 2; EvTx false; EvTx false; EvTx false] /\
+  is_frozen r.1 2 = false /\ (r_votes <$> reqs r.1 !! 1) = Some [].
+Proof. vm_compute. repeat split; reflexivity. Qed.
+
 (* non-vacuity: the hypotheses of the theorems above are met by a concrete history in which a
    verdict is reached with votes of distinct active validators, the stake drops by the penalty and
    the bounty program is credited *)
